@@ -58,6 +58,7 @@ def run(chk: harness.Check):
     c03.d3_progress(chk, F, pid="C16", only_regions=regions)
     d2_inserts(chk, F, regions)
     d5_empty_best(chk, F)
+    d6_alias_carry_over(chk, F)
     d3_shipped(chk)
     d4_build_keys(chk)
 
@@ -125,6 +126,36 @@ def d5_empty_best(chk, F):
         chk.expect(not bad, "C16.D5-empty-best", f"add_units_file|is_empty#{tests.index((b, t))}", f.where(b),
                    "an empty best-units list can reach the store into self.best_units: BestConversions::new then unwraps the first element of an empty list",
                    sample=f"{f.where(b)}: the is-empty outcome cannot reach the store (returns EmptyBest)")
+
+
+def d6_alias_carry_over(chk, F):
+    """Re-expanding a unit after an `extend` edit regenerates names and symbols only: the aliases a
+    generated unit already had (declared by any layer) must be carried over verbatim."""
+    from flow import resolve, resolve_rvalue, leaves, show
+    fs = F.find("convert::builder::update_expanded_units")
+    if len(fs) != 1:
+        chk.fail("anchor-missing", "update_expanded_units", "", "anchor-missing: update_expanded_units not found")
+        return
+    f = fs[0]
+    writes = []
+    for i, j, s in f.iter_stmts():
+        if s["k"] == "assign" and ".aliases" in s["place"]["p"]:
+            writes.append((i, s))
+    if not writes:
+        chk.fail("C16.D6-alias-carry-over", "update_expanded_units|aliases", f"{f.file}:{f.line}",
+                 "update_expanded_units no longer restores the aliases of the regenerated unit: aliases declared for a generated unit are lost")
+        return
+    for i, s in writes:
+        e = resolve_rvalue(f, s["rv"], 0, frozenset(), i)
+        txt = show(e, -50)
+        ok = txt.startswith("Clone>::clone(") and ".aliases" in txt and not any(x in txt for x in ("join_alias_vec", "mem::take", "Vec::new", "precedence"))
+        chk.expect(ok, "C16.D6-alias-carry-over", "update_expanded_units|aliases", f"{f.file}:{s.get('line')}",
+                   f"the regenerated unit's aliases must be a verbatim copy of the aliases it had; they are {txt[:100]}",
+                   sample=f"{f.file}:{s.get('line')}: aliases ← previous aliases (clone)")
+    for b, t in f.calls():
+        if (callee_key(t) or "").endswith("join_alias_vec"):
+            chk.fail("C16.D6-alias-carry-over", "update_expanded_units|join", f.where(b),
+                     "update_expanded_units re-joins aliases with a precedence: an `override` extend of the parent unit would drop the aliases of its generated units")
 
 
 def recv_name(f, op):
